@@ -23,6 +23,7 @@ import (
 	"os"
 	"regexp"
 	"slices"
+	"sort"
 	"strconv"
 	"strings"
 
@@ -113,7 +114,14 @@ func Unique(in []string) []string {
 // Unflatten map entries into new map.
 func Unflatten(in map[string]interface{}) map[string]interface{} {
 	res := make(map[string]interface{})
-	for k, v := range in {
+	// visit keys in sorted order so that result is deterministic for conflicting keys (a, a.b)
+	keys := make([]string, 0, len(in))
+	for k := range in {
+		keys = append(keys, k)
+	}
+	sort.Strings(keys)
+	for _, k := range keys {
+		v := in[k]
 		current := res
 		pc := strings.Split(k, ".")
 		for _, c := range pc[0 : len(pc)-1] {
